@@ -257,11 +257,12 @@ Definition parse_py (ts : list ptok) : option syn := pscan ts (new_frame BParen)
 
 (* ------------------------------------------------------------------ vocabulary of the parser theorem *)
 (* trees that the layout represents faithfully: atoms are literals, tuples have two or more items, paths are non-empty
-   and do not start with None / True / False, keyword names are not constants, the receiver of a method call is itself a
+   and method names are not None / True / False, the receiver of a method call is itself a
    call, a method call or a bracket *)
 Definition atom_ok (t : ptok) : bool :=
   match t with TkStr _ | TkInt _ => true | TkName n => is_const_name n | TkSym _ => false end.
 Definition recv_ok (s : syn) : bool := match s with SAtom _ => false | _ => true end.
+Definition nonempty_path (p : list string) : bool := match p with [] => false | _ => true end.
 
 Fixpoint wf_syn (s : syn) : bool :=
   let wargs (args : list (option string * syn)) : bool := forallb (fun a => wf_syn (snd a)) args in
@@ -273,6 +274,6 @@ Fixpoint wf_syn (s : syn) : bool :=
                     && (negb tr || negb (match kvs with [] => true | _ => false end))
   | SPar x => wf_syn x
   | SCall path args =>
-      match path with [] => false | n :: _ => negb (is_const_name n) end && wargs args
-  | SMeth recv m args => recv_ok recv && wf_syn recv && wargs args
+      nonempty_path path && forallb (fun n => negb (is_const_name n)) path && wargs args
+  | SMeth recv m args => recv_ok recv && negb (is_const_name m) && wf_syn recv && wargs args
   end.
